@@ -40,14 +40,18 @@ def _apply_and_check(pid, patch, expect):
 
 
 def run_mutants(chk, pid):
-    d = os.path.join(VERIF, "selftest", "mutants", pid)
-    if not os.path.isdir(d):
-        return {"n": 0}
     jobs = []
-    for f in sorted(os.listdir(d)):
-        if f.endswith(".patch"):
-            exp = open(os.path.join(d, f[:-6] + ".expect")).read().strip()
-            jobs.append((f[:-6], os.path.join(d, f), exp))
+    # mutants: one instance broken on the tree as it is; mutants2: the same kind of break on top of a stored refactoring
+    for kind in ("mutants", "mutants2"):
+        d = os.path.join(VERIF, "selftest", kind, pid)
+        if not os.path.isdir(d):
+            continue
+        for f in sorted(os.listdir(d)):
+            if f.endswith(".patch"):
+                exp = open(os.path.join(d, f[:-6] + ".expect")).read().strip()
+                jobs.append(((f[:-6] if kind == "mutants" else "on-refactoring/" + f[:-6]), os.path.join(d, f), exp))
+    if not jobs:
+        return {"n": 0}
     res = {}
     with ThreadPoolExecutor(max_workers=8) as ex:
         futs = {name: ex.submit(_apply_and_check, pid, patch, exp) for name, patch, exp in jobs}
